@@ -162,7 +162,7 @@ func (d *disconnectHandler) handleDisconnect() {
 
 	log := d.election.getLogger()
 	log.Warn("connection_disconnected",
-		append(d.election.logWithContext(d.election.ctx),
+		append(d.election.logWithContext(d.election.electionCtx()),
 			zap.Duration("grace_period", gracePeriod),
 		)...,
 	)
@@ -195,7 +195,7 @@ func (d *disconnectHandler) handleGracePeriodExpired() {
 			// Reconnected, don't demote
 			log := d.election.getLogger()
 			log.Info("connection_reconnected_before_grace_period",
-				d.election.logWithContext(d.election.ctx)...,
+				d.election.logWithContext(d.election.electionCtx())...,
 			)
 			return
 		}
@@ -206,7 +206,7 @@ func (d *disconnectHandler) handleGracePeriodExpired() {
 		log := d.election.getLogger()
 		disconnectedDuration := time.Since(d.disconnectedAt)
 		log.Error("demoting_due_to_connection_loss",
-			append(d.election.logWithContext(d.election.ctx),
+			append(d.election.logWithContext(d.election.electionCtx()),
 				zap.Duration("disconnected_duration", disconnectedDuration),
 			)...,
 		)
@@ -335,7 +335,7 @@ func (e *kvElection) handleReconnectVerificationFailed(err error) {
 
 	log := e.getLogger()
 	log.Error("demoting_due_to_reconnect_verification_failure",
-		append(e.logWithContext(e.ctx),
+		append(e.logWithContext(e.electionCtx()),
 			zap.Error(err),
 			zap.String("error_type", classifyErrorType(err)),
 		)...,
